@@ -45,6 +45,7 @@ def check(c: Check):
     clause_g(c)
     clause_h(c)
     clause_j(c)
+    clause_k(c)
     from .common import sweep_records
     sweep_records(c, 'C15-rec', ['exactly_lib.impls.file_properties', 'exactly_lib.impls.types.files_matcher', 'exactly_lib.impls.types.file_matcher', 'exactly_lib.impls.types.files_source'], floor=3)
     from .common import check_application_purity
@@ -666,3 +667,134 @@ def clause_j(c: Check):
         else:
             c.bad('C15-j', 'recursive-model/result', 'the model of -recursive is %s' % util.describe(p.val), mm.loc())
     c.floor('C15-j', 'returning paths of make_model', n_ret, 1)
+
+
+# ---------------------------------------------------------------- k
+def clause_k(c: Check):
+    """`file NAME = ...` / `dir NAME = ...`: a name that exists is a clash (HARD_ERROR), never merged or overwritten.
+    For every maker handed to NewFileCreator the clash is found either (P) by NewFileCreator.make itself - on every
+    path the maker is called only after an existence test that does not follow links found nothing - or (X) by the
+    maker: what it creates at the given path is created exclusively (`mkdir` without exist_ok, `open` with mode
+    'x'). Also CFGOBL of the copy primitives of dir-contents-of: `shutil.copytree` / `copy2` are called with source
+    and destination only (links are dereferenced, so the populated tree refers to nothing outside it)."""
+    ix, fo = c.ix, c.fo
+    U = 'exactly_lib.impls.types.files_source.impl.file_makers.utils'
+    nfc = ix.cls(U + ':NewFileCreator')
+    make = ix.class_member(nfc, 'make')
+    helpers = [m for m in nfc.methods.values() if m is not make and m.name != '__init__']
+    he = ix.cls('exactly_lib.test_case.hard_error:HardErrorException')
+    hooks = ForkHooks(ix, loop_bound=1)
+    hooks.inline_set = set(helpers)
+    hooks.fork_on(lambda d, n, cv: isinstance(n.func, ast.Attribute) and n.func.attr == 'apply',
+                  [('exists', lambda: Sym('check-result-exists')), ('missing', lambda: Sym('check-result-missing'))])
+
+    # (P) pre-check in make
+    pre_ok = True
+    n_maker_paths = 0
+    it = Interp(ix, fo, hooks)
+    obj = it.new_obj(nfc)
+    maker = Sym('maker')
+    st = State()
+    st.heap[(obj.oid, '_maker')] = maker
+    # the existence check is a class constant: must_exist(follow_symlinks=False)
+    check_nodes = [n for n in nfc.node.body if isinstance(n, ast.Assign) and isinstance(n.value, ast.Call)
+                   and unparse(n.value.func).endswith('must_exist')]
+    no_follow = False
+    for n in check_nodes:
+        kw = {k.arg: fo.fold(nfc.module, None, k.value) for k in n.value.keywords}
+        pos = [fo.fold(nfc.module, None, a) for a in n.value.args]
+        no_follow = kw.get('follow_symlinks', pos[0] if pos else None) is False
+    paths = it.run_function(make, {}, st, recv=obj)
+    for p in paths:
+        calls_maker = [e for e in p.calls() if e.data.get('callee_val') is maker]
+        labs = labels_of(p)
+        if calls_maker:
+            n_maker_paths += 1
+        if not labs:
+            if calls_maker:
+                pre_ok = False
+            continue
+        # which outcome of the test leads where: decided by the truth of `<result>.is_success` on this path
+        exists_known = None
+        for t, truth in p.guards:
+            if 'is_success' in unparse(t):
+                exists_known = truth
+        if exists_known is None and calls_maker:
+            pre_ok = False
+        if exists_known is True and calls_maker:
+            pre_ok = False
+        if exists_known is True:
+            raised = p.kind == 'raise' and isinstance(p.val, Exc) and p.val.cls == he
+            if not raised:
+                pre_ok = False
+    pre_ok = pre_ok and no_follow and n_maker_paths >= 1
+    c.require(n_maker_paths >= 1, 'C15-k: NewFileCreator.make never calls its maker')
+    # (X) exclusive creation by the makers
+    sites = util.call_sites_of(ix, nfc)
+    n = 0
+    for s in sites:
+        if len(s.node.args) != 1:
+            continue
+        a = s.node.args[0]
+        d = None
+        if isinstance(a, ast.Attribute) and isinstance(a.value, ast.Name) and s.func is not None and s.func.cls is not None \
+                and a.value.id == s.func.self_name:
+            d = ix.class_member(s.func.cls, a.attr)
+        c.require(isinstance(d, FuncDef), 'C15-k: maker %s at %s not resolved' % (unparse(a), s.where))
+        n += 1
+        cls = d.cls
+
+        class HX(Hooks):
+            def inline(self, fd, st_):
+                return fd.cls is cls and fd is not d
+
+        pth = d.positional_params()[1].arg
+        exclusive = True
+        creates = 0
+        why = []
+        for p in util.func_paths(ix, fo, d, HX()):
+            for e in p.calls():
+                if not isinstance(e.node.func, ast.Attribute) or e.node.func.attr not in ('mkdir', 'open', 'touch', 'write_text', 'symlink_to'):
+                    continue
+                recv = e.data.get('recv')
+                if recv is None:
+                    cv = e.data.get('callee_val')
+                    recv = cv.origin[1] if isinstance(cv, Sym) and cv.origin and cv.origin[0] == 'attr' else None
+                root, names = util.attr_chain(recv) if recv is not None else (None, ())
+                r0 = util.root_sym(root) if root is not None else None
+                if not (isinstance(r0, Sym) and r0.origin and r0.origin[:2] == ('param', pth) and names == ('primitive',)):
+                    continue  # something else than the path to create (its parent, ...)
+                creates += 1
+                meth = e.node.func.attr
+                if meth == 'mkdir':
+                    eo = e.data['kwargs'].get('exist_ok')
+                    if eo is not None and not (isinstance(eo, K) and eo.v is False):
+                        exclusive = False
+                        why.append('mkdir(exist_ok=%s)' % util.describe(eo))
+                elif meth == 'open':
+                    mode = e.data['args'][0] if e.data['args'] else e.data['kwargs'].get('mode')
+                    if not (isinstance(mode, K) and isinstance(mode.v, str) and 'x' in mode.v):
+                        exclusive = False
+                        why.append('open(%s)' % (util.describe(mode) if mode is not None else ''))
+                else:
+                    exclusive = False
+                    why.append(meth)
+        c.require(creates >= 1, 'C15-k: maker %s creates nothing at the path it is given' % d.key)
+        c.expect(pre_ok or exclusive, 'C15-k', 'create-refuses-existing/%s' % d.key,
+                 '%s creates with %s and NewFileCreator.make %s: an existing name is merged into / overwritten instead '
+                 'of being a clash (HARD_ERROR)' % (
+                     d.key.split(':')[-1], ', '.join(sorted(set(why))) or 'non-exclusive primitives',
+                     'does not test (without following links) that the path does not exist before calling the maker'),
+                 d.loc(), detail='pre-check' if pre_ok else 'exclusive')
+    c.floor('C15-k', 'makers of new files / directories', n, 2)
+    # copy primitives of dir-contents-of
+    osm = ix.module('exactly_lib.impls.os_services.impl')
+    n_cp = 0
+    for node, f, dotted in util.external_calls(ix, osm):
+        if dotted in ('shutil.copytree', 'shutil.copy2', 'shutil.copy', 'shutil.copyfile'):
+            n_cp += 1
+            extra = [k.arg for k in node.keywords] + ['<positional %d>' % i for i in range(2, len(node.args))]
+            c.expect(not extra, 'C15-k', 'copy-primitive/%s@%s' % (dotted, f.key if f else '?'),
+                     '%s is called with %s: the default (dereference links, fail on an existing destination) is what '
+                     'dir-contents-of documents' % (dotted, extra), '%s:%d' % (osm.relpath, node.lineno))
+    c.floor('C15-k', 'copy primitives of the OS services', n_cp, 2)
